@@ -110,11 +110,16 @@ def probe():
             real = getattr(set, m)
 
             def f(self, *a, **k):
-                rec.access()
+                pool = holder.get("pool")
+                # only the sets that ARE the pool's idle / busy at this instant are shared (close() keeps emptying the
+                # old objects through locals after it has replaced them)
+                if pool is not None and (self is pool.__dict__.get("idle") or self is pool.__dict__.get("busy")):
+                    rec.access()
                 return real(self, *a, **k)
             return f
         ns[m] = make(m)
     PSet = type("PSet", (set,), ns)
+    holder = {}
 
     def mk_lock(kind):
         def f():
@@ -128,8 +133,6 @@ def probe():
     def sleep(s):
         rec.blocking()
     shim_time = types.SimpleNamespace(sleep=sleep, time=lambda: 0.0)
-
-    holder = {}
 
     def w_start(self):
         pool = holder.get("pool") or getattr(self, "pool", None)
